@@ -39,6 +39,8 @@ type Prog struct {
 	reach         map[*ssa.Function]bool
 	batchCache    []*batchModel
 	lockCache     *lockCtx
+	liftCache     map[*ssa.Function]liftEntry
+	addrTaken     map[*ssa.Function]bool
 	staticCallers map[*ssa.Function][]ssa.CallInstruction
 }
 
@@ -161,6 +163,7 @@ func loadProg(repo, tags string, whole bool) *Prog {
 	}
 	sort.Slice(p.AllFuncs, func(i, j int) bool { return funcName(p.AllFuncs[i]) < funcName(p.AllFuncs[j]) })
 	p.LoadSecs = time.Since(start).Seconds()
+	gp = p
 	return p
 }
 
